@@ -1,7 +1,7 @@
 (* Properties/C10.v -- The smallest symbol that can hold the data is chosen (what is a theorem, and the recorded gap). *)
 From Coq Require Import Arith NArith List Bool.
 From DM Require Import Generated.Symbols Generated.ModeTables Model.Outcome Model.SymbolList Model.Planner Model.PlannerRun Model.Enc
-  Model.Dec Model.Api Proofs.SymbolListProofs Proofs.EncLocal Proofs.EncTop.
+  Model.Dec Model.Api Proofs.SymbolListProofs Proofs.EncLocal Proofs.EncTop Spec.Stream16022 Proofs.EncAscii Proofs.AsciiMinimal.
 Import ListNotations.
 Local Open Scope N_scope.
 
@@ -19,6 +19,24 @@ Proof.
   split; [exact C|]. apply (first_fit_spec symbols (cw_len e1) s W) in FF. exact FF.
 Qed.
 Print Assumptions C10_first_fit.
+
+(* (i') the full statement as a theorem for the ASCII-only configuration: the encoder's greedy ASCII encodation (a digit
+   pair wherever two digits meet) is the shortest among ALL legal ASCII encodings of the message -- every sequence of
+   ASCII items (single characters, digit pairs, Upper Shift) spelling the same bytes -- hence the symbol returned is the
+   smallest listed symbol into which any legal stream using only the enabled mode fits (every byte string, every
+   sorted list, every admissible sort) *)
+Theorem C10_greedy_optimal : forall items, forallb aitem_ok items = true ->
+  (length (flat_map aitem_cw (greedy (flat_map aitem_data items))) <= length (flat_map aitem_cw items))%nat.
+Proof. exact greedy_optimal. Qed.
+Print Assumptions C10_greedy_optimal.
+
+Theorem C10_ascii_only_minimal : forall sorter data symbols cw s, wf symbols ->
+  (forall k l l', sorter symbols k l = Ok l' -> incl l' l) -> bytes_ok data = true ->
+  encode_data_internal (optimize_fn sorter) data symbols None 1 false false = Ok (cw, s) ->
+  forall items, forallb aitem_ok items = true -> flat_map aitem_data items = data ->
+  forall s', In s' symbols -> N.of_nat (length (flat_map aitem_cw items)) <= num_data_codewords s' -> s' = s \/ ss_ltP s s'.
+Proof. exact ascii_only_minimal. Qed.
+Print Assumptions C10_ascii_only_minimal.
 
 (* in the crate's order a later symbol never has a smaller capacity *)
 Theorem C10_order_is_capacity : forall l, wf l ->
